@@ -29,6 +29,7 @@ import (
 
 // verifSink accepts limit bytes (limit < 0: everything) and then fails every Write
 type verifSink struct {
+	kind     string
 	limit    int
 	accepted int
 	errs     int
@@ -50,7 +51,41 @@ func (s *verifSink) Write(p []byte) (int, error) {
 	s.accepted += room
 	s.buf = append(s.buf, p[:room]...)
 	s.errs++
-	return room, errors.New("verif: no space left on device")
+	return room, s.failure()
+}
+
+// failure produces the error of the configured kind: a made-up one, or the real error value the operating
+// system returns for a pipe whose reader is gone (EPIPE), a full device (ENOSPC) or a closed file (a
+// *fs.PathError around os.ErrClosed)
+func (s *verifSink) failure() error {
+	switch s.kind {
+	case "epipe":
+		if r, w, err := os.Pipe(); err == nil {
+			r.Close()
+			_, werr := w.Write([]byte("x"))
+			w.Close()
+			if werr != nil {
+				return werr
+			}
+		}
+	case "enospc":
+		if f, err := os.OpenFile("/dev/full", os.O_WRONLY, 0); err == nil {
+			_, werr := f.Write([]byte("x"))
+			f.Close()
+			if werr != nil {
+				return werr
+			}
+		}
+	case "closed":
+		if f, err := os.OpenFile(os.DevNull, os.O_WRONLY, 0); err == nil {
+			f.Close()
+			_, werr := f.Write([]byte("x"))
+			if werr != nil {
+				return werr
+			}
+		}
+	}
+	return errors.New("verif: no space left on device")
 }
 
 // verifReader delivers limit bytes (limit < 0: everything) in reads of at most
@@ -114,6 +149,7 @@ type verifReadFault struct {
 type verifFaultJob struct {
 	Args      []string         `json:"args"`
 	SinkLimit int              `json:"sink_limit"`
+	SinkKind  string           `json:"sink_kind,omitempty"`
 	Reads     []verifReadFault `json:"reads,omitempty"`
 }
 
@@ -137,7 +173,7 @@ type verifFaultRes struct {
 }
 
 func verifRunFault(j verifFaultJob) (res verifFaultRes) {
-	sk := &verifSink{limit: j.SinkLimit}
+	sk := &verifSink{limit: j.SinkLimit, kind: j.SinkKind}
 	var frs []*verifReader
 	cu := utils.CmdUtils{
 		WithFileReaders: func(fileNames []string, cb func([]io.Reader) error) error {
